@@ -84,7 +84,7 @@ pub fn specs() -> Vec<CheckSpec> {
             level: "exploration",
             owns: &["listing", "lookup"],
             runs: (2000, 100_000),
-            rule: "a case = seeded history over 1-200 keys with several records per key and tombstones in any position; listing compared as a set with the model and field by field with lookup. Exhaustive core shared with C05. Non-trivial = listing of >= 2 entries after >= 1 tombstone or re-write",
+            rule: "a case = seeded history over 1-200 keys with several records per key and tombstones in any position; listing compared as a set with the model and field by field with lookup. Exhaustive core shared with C05. Non-trivial = listing of >= 2 entries after >= 1 tombstone or re-write. 1 run in 8 ends with a torn tail or a foreign record (valid checksum, integrity text that does not parse) in some bucket: listing and lookup must still agree entry by entry",
             assumptions: A_COMMON,
         },
         CheckSpec {
@@ -102,7 +102,7 @@ pub fn specs() -> Vec<CheckSpec> {
             level: "exploration",
             owns: &["flavour-diff"],
             runs: (1200, 60_000),
-            rule: "a case = one program (writes with option combinations, reads, extractions, removals, listing, damage steps between ops) executed three times on three fresh caches through the pure sync, async-std and tokio flavours; per-step result records and the final decoded caches must agree. Non-trivial = program has >= 3 API steps incl. >= 1 write; distinct by program hash",
+            rule: "a case = one program (writes with option combinations, reads, extractions, removals, listing, damage steps between ops) executed three times on three fresh caches through the pure sync, async-std and tokio flavours; per-step result records and the final decoded caches must agree. Non-trivial = program has >= 3 API steps incl. >= 1 write; distinct by program hash. Programs include clear followed by further writes, declared integrities of other algorithms (true and false digests, multi-hash), sizes off by one, garbage lines and foreign records with unparsable integrity in buckets",
             assumptions: A_COMMON,
         },
         CheckSpec {
@@ -156,7 +156,7 @@ pub fn specs() -> Vec<CheckSpec> {
             level: "exploration",
             owns: &["no-panic"],
             runs: (3000, 200_000),
-            rule: "a case = a hostile program: zero-length data through every entry point, declared-size data in several chunks, more/fewer bytes than declared on both sides of 1 MiB, odd on-disk states (bucket path is a directory, content path is a directory, tmp or index-v5 is a regular file, cache root missing or a file, stray files), every call under catch_unwind and a watchdog. Non-trivial = >= 1 misuse or odd-state step executed; index lines that are well-formed UTF-8 with a multi-byte character across the checksum/tab boundary; 1 run in 16 is the abandon-chunk family under the system-call scheduler (a write future dropped in flight, then write_all with shorter buffers)",
+            rule: "a case = a hostile program: zero-length data through every entry point, declared-size data in several chunks, more/fewer bytes than declared on both sides of 1 MiB, odd on-disk states (bucket path is a directory, content path is a directory, tmp or index-v5 is a regular file, cache root missing or a file, stray files), every call under catch_unwind and a watchdog. Non-trivial = >= 1 misuse or odd-state step executed; foreign records with a valid checksum whose integrity text does not parse; stray lock-/temp-like files next to buckets; top-level cache directories that are symlinks; index lines that are well-formed UTF-8 with a multi-byte character across the checksum/tab boundary; 1 run in 16 is the abandon-chunk family under the system-call scheduler (a write future dropped in flight, then write_all with shorter buffers)",
             assumptions: A_COMMON,
         },
     ]
